@@ -4,8 +4,12 @@
 #![allow(irrefutable_let_patterns, dead_code, unused_imports, unused_variables, unused_macros)]
 mod drivers;
 mod gen;
+mod guard;
 mod hint;
 mod rec;
+
+#[global_allocator]
+static ALLOC: guard::Guard = guard::Guard;
 
 use std::fs::File;
 use std::io::BufWriter;
